@@ -5,40 +5,40 @@
 # ---------------------------------------------------------------------------------------------
 SUITES = {
     # name:        (mode,   elem,   extra flags,            profile,   runs,      events)
-    "core_heap":   ("random", "heap",  [],                    "debug",   (12, 150), (200, 200)),
-    "core_plain":  ("random", "plain", [],                    "debug",   (12, 150), (200, 200)),
-    "core_zst":    ("random", "zst",   [],                    "debug",   (6, 30),   (150, 150)),
-    "rel_heap":    ("random", "heap",  [],                    "release", (12, 150), (200, 200)),
-    "rel_plain":   ("random", "plain", [],                    "release", (12, 150), (200, 200)),
-    "two_heap":    ("random", "heap",  ["--two"],             "debug",   (12, 120), (200, 200)),
-    "two_plain_rel": ("random", "plain", ["--two"],           "release", (12, 120), (200, 200)),
-    "set_heap":    ("random", "heap",  ["--set"],             "debug",   (9, 90),   (200, 200)),
-    "set_two":     ("random", "heap",  ["--set", "--two"],    "debug",   (12, 120), (200, 200)),
-    "set_zst":     ("random", "zst",   ["--set"],             "debug",   (6, 30),   (150, 150)),
-    "limits_dbg":  ("random", "plain", ["--limits"],          "debug",   (12, 120), (200, 200)),
-    "limits_rel":  ("random", "plain", ["--limits"],          "release", (12, 120), (200, 200)),
+    "core_heap":   ("random", "heap",  [],                    "debug",   (12, 60), (200, 200)),
+    "core_plain":  ("random", "plain", [],                    "debug",   (12, 60), (200, 200)),
+    "core_zst":    ("random", "zst",   [],                    "debug",   (6, 30),   (150, 60)),
+    "rel_heap":    ("random", "heap",  [],                    "release", (12, 60), (200, 200)),
+    "rel_plain":   ("random", "plain", [],                    "release", (12, 60), (200, 200)),
+    "two_heap":    ("random", "heap",  ["--two"],             "debug",   (12, 60), (200, 200)),
+    "two_plain_rel": ("random", "plain", ["--two"],           "release", (12, 60), (200, 200)),
+    "set_heap":    ("random", "heap",  ["--set"],             "debug",   (9, 48),   (200, 200)),
+    "set_two":     ("random", "heap",  ["--set", "--two"],    "debug",   (12, 60), (200, 200)),
+    "set_zst":     ("random", "zst",   ["--set"],             "debug",   (6, 30),   (150, 60)),
+    "limits_dbg":  ("random", "plain", ["--limits"],          "debug",   (12, 60), (200, 200)),
+    "limits_rel":  ("random", "plain", ["--limits"],          "release", (12, 60), (200, 200)),
     # crash-point enumeration: runs = number of sampled (state, operation) pairs
-    "fault_heap":  ("faults", "heap",  [],                    "debug",   (24, 240), (0, 0)),
-    "fault_heap_rel": ("faults", "heap", [],                  "release", (24, 240), (0, 0)),
-    "fault_plain": ("faults", "plain", [],                    "release", (18, 120), (0, 0)),
-    "fault_two":   ("faults", "heap",  ["--two"],             "debug",   (18, 180), (0, 0)),
-    "fault_set":   ("faults", "heap",  ["--set", "--two"],    "debug",   (18, 180), (0, 0)),
+    "fault_heap":  ("faults", "heap",  [],                    "debug",   (24, 96), (0, 0)),
+    "fault_heap_rel": ("faults", "heap", [],                  "release", (24, 96), (0, 0)),
+    "fault_plain": ("faults", "plain", [],                    "release", (18, 60), (0, 0)),
+    "fault_two":   ("faults", "heap",  ["--two"],             "debug",   (18, 72), (0, 0)),
+    "fault_set":   ("faults", "heap",  ["--set", "--two"],    "debug",   (18, 72), (0, 0)),
     "fault_zst":   ("faults", "zst",   [],                    "debug",   (9, 45),   (0, 0)),
-    "par_heap":    ("random", "heap",  ["--par"],            "release", (12, 120), (150, 150)),
-    "par_two":     ("random", "plain", ["--par", "--two"],   "debug",   (12, 120), (150, 150)),
-    "par_set":     ("random", "heap",  ["--par", "--set", "--two"], "release", (12, 120), (150, 150)),
-    "serde_map":   ("random", "heap",  ["--serde", "--two"],  "debug",   (12, 120), (150, 150)),
-    "serde_set":   ("random", "heap",  ["--serde", "--two", "--set"], "debug", (12, 120), (150, 150)),
+    "par_heap":    ("random", "heap",  ["--par"],            "release", (12, 60), (150, 60)),
+    "par_two":     ("random", "plain", ["--par", "--two"],   "debug",   (12, 60), (150, 60)),
+    "par_set":     ("random", "heap",  ["--par", "--set", "--two"], "release", (12, 60), (150, 60)),
+    "serde_map":   ("random", "heap",  ["--serde", "--two"],  "debug",   (12, 60), (150, 60)),
+    "serde_set":   ("random", "heap",  ["--serde", "--two", "--set"], "debug", (12, 60), (150, 60)),
     "serde_zst":   ("random", "zst",   ["--serde", "--two", "--set"], "release", (6, 30), (100, 100)),
-    "meta_heap":   ("meta",   "heap",  [],                    "debug",   (12, 120), (0, 0)),
-    "meta_plain":  ("meta",   "plain", [],                    "release", (12, 120), (0, 0)),
-    "meta_set":    ("meta",   "heap",  ["--set"],             "debug",   (12, 120), (0, 0)),
+    "meta_heap":   ("meta",   "heap",  [],                    "debug",   (12, 60), (0, 0)),
+    "meta_plain":  ("meta",   "plain", [],                    "release", (12, 60), (0, 0)),
+    "meta_set":    ("meta",   "heap",  ["--set"],             "debug",   (12, 60), (0, 0)),
     "meta_zst":    ("meta",   "zst",   [],                    "debug",   (6, 30),   (0, 0)),
     "tomb_plain":  ("tomb",   "plain", [],                    "debug",   (8, 64),   (0, 0)),
     "tomb_heap":   ("tomb",   "heap",  [],                    "release", (8, 64),   (0, 0)),
     # profile differential: recorded with the debug build, re-executed with the release build
-    "diff_plain":  ("diff",   "plain", ["--limits"],          "debug",   (12, 120), (200, 200)),
-    "diff_heap":   ("diff",   "heap",  ["--limits"],          "debug",   (12, 120), (200, 200)),
+    "diff_plain":  ("diff",   "plain", ["--limits"],          "debug",   (12, 60), (200, 200)),
+    "diff_heap":   ("diff",   "heap",  ["--limits"],          "debug",   (12, 60), (200, 200)),
     "diff_two":    ("diff",   "heap",  ["--two"],             "debug",   (6, 60),   (200, 200)),
     "diff_set":    ("diff",   "heap",  ["--set", "--two"],    "debug",   (6, 60),   (200, 200)),
     "diff_zst":    ("diff",   "zst",   [],                    "debug",   (6, 30),   (100, 100)),
@@ -48,10 +48,10 @@ SUITES = {
     "big_collide": ("big",    "plain", ["--hm", "2"],         "release", (1, 1),    (1500, 6000)),
     # spec -> implementation: TLC-simulated behaviours of SimCount.tla concretised through the hook;
     # runs = behaviours, events = depth
-    "sim_plain":   ("sim",    "plain", [],                    "debug",   (30, 400), (45, 60)),
-    "sim_heap":    ("sim",    "heap",  [],                    "release", (30, 400), (45, 60)),
-    "entry_heap":  ("random", "heap",  ["--entry"],           "debug",   (12, 120), (200, 200)),
-    "entry_plain": ("random", "plain", ["--entry"],           "release", (12, 120), (200, 200)),
+    "sim_plain":   ("sim",    "plain", [],                    "debug",   (30, 300), (45, 60)),
+    "sim_heap":    ("sim",    "heap",  [],                    "release", (30, 300), (45, 60)),
+    "entry_heap":  ("random", "heap",  ["--entry"],           "debug",   (12, 60), (200, 200)),
+    "entry_plain": ("random", "plain", ["--entry"],           "release", (12, 60), (200, 200)),
     "defects":     ("scripts", None,   [],                    "both",    (1, 1),    (0, 0)),
 }
 
